@@ -68,6 +68,7 @@ class ParallelAction : public AssembleAction {
     void pauseAllActions();
 
     void onChildFinished(int index, bool is_succ);
+    bool checkFinishedChildren(); //!< 根据已结束的子动作决定是否结束，结束了返回true
     void onChildBlocked(int index, const Reason &why, const Trace &trace);
 
   private:
